@@ -663,11 +663,13 @@ var (
 	litHasMoreRe  = regexp.MustCompile(`^\((.+)\.index < len\((.+)\.expression\)\)$`)
 	litNextStrRe  = regexp.MustCompile(`^\(("(?:[^"\\]|\\.)*") == (.+)\.expression\[(.+)\.index:\((.+)\.index \+ 1\)\]\)$`)
 	litNextByteRe = regexp.MustCompile(`^\((\d+) == (.+)\.expression\[(.+)\.index\]\)$`)
-	litAfterRe2   = regexp.MustCompile(`^strings\.HasPrefix\((.+)\.expression\[(.+)\.index:\]\[1:\], ("(?:[^"\\]|\\.)*")\)$`)
-	litAfterRe    = regexp.MustCompile(`^strings\.HasPrefix\((.+)\.expression\[\((.+)\.index \+ 1\):\], ("(?:[^"\\]|\\.)*")\)$`)
-	litSuffixRe   = regexp.MustCompile(`^strings\.HasSuffix\((.+), ("(?:[^"\\]|\\.)*")\)$`)
-	litCutRe      = regexp.MustCompile(`^strings\.CutSuffix\((.+), ("(?:[^"\\]|\\.)*")\)#1$`)
-	litNilRe      = regexp.MustCompile(`^\(nil == spdxexp\.[A-Za-z]+\(.*\)\)$`)
+	// the same on the unread rest: rest := expression[index:]; rest[0] == '+'
+	litNextByteRe2 = regexp.MustCompile(`^\((\d+) == (.+)\.expression\[(.+)\.index:\]\[0\]\)$`)
+	litAfterRe2    = regexp.MustCompile(`^strings\.HasPrefix\((.+)\.expression\[(.+)\.index:\]\[1:\], ("(?:[^"\\]|\\.)*")\)$`)
+	litAfterRe     = regexp.MustCompile(`^strings\.HasPrefix\((.+)\.expression\[\((.+)\.index \+ 1\):\], ("(?:[^"\\]|\\.)*")\)$`)
+	litSuffixRe    = regexp.MustCompile(`^strings\.HasSuffix\((.+), ("(?:[^"\\]|\\.)*")\)$`)
+	litCutRe       = regexp.MustCompile(`^strings\.CutSuffix\((.+), ("(?:[^"\\]|\\.)*")\)#1$`)
+	litNilRe       = regexp.MustCompile(`^\(nil == spdxexp\.[A-Za-z]+\(.*\)\)$`)
 )
 
 // classifyPlanLiteral: what a literal of an attempt's path condition means for the lookup plan.
@@ -697,6 +699,11 @@ func classifyPlanLiteral(l *qf, recv, id string) (string, string) {
 		return "needNext", unq(m[1])
 	}
 	if m := litNextByteRe.FindStringSubmatch(s); m != nil && m[2] == recv && m[3] == recv && !neg {
+		if n, err := strconv.Atoi(m[1]); err == nil && n > 0 && n < 128 {
+			return "needNext", string(rune(n))
+		}
+	}
+	if m := litNextByteRe2.FindStringSubmatch(s); m != nil && m[2] == recv && m[3] == recv && !neg {
 		if n, err := strconv.Atoi(m[1]); err == nil && n > 0 && n < 128 {
 			return "needNext", string(rune(n))
 		}
